@@ -112,8 +112,8 @@ class SsbGraphMinimizer:
                     ins = g.incident(v, IN)
                     if len(ins) == 1:
                         iv = g.es[ins[0]].source_vertex
-                        if isinstance(iv["op"], SsbLabel):
-                            # IS JUMP AND BEFORE IS LABEL:
+                        if isinstance(iv["op"], SsbLabel) and not iv["op"].referenced_from_other_routine:
+                            # IS JUMP AND BEFORE IS LABEL (that only this routine uses):
                             vs_to_delete += self._optimize_paths__jump_after_label(g, jump=v, label=iv)
             g.delete_vertices(vs_to_delete)
 
@@ -734,7 +734,8 @@ class SsbGraphMinimizer:
                     in_edges = v.in_edges()
                     out_edges = v.out_edges()
                     if len(in_edges) == 0:
-                        vs_to_delete.add(v)
+                        if not v["op"].referenced_from_other_routine:
+                            vs_to_delete.add(v)
                     elif len(in_edges) == 1:
                         assert len(out_edges) == 1
                         if (
